@@ -508,19 +508,29 @@ def run_cache_account_ops(tier, log, seed):
             cx.unrecognised("CacheAccount::touch_create_pre_eip161", "the `?` on the status transition was not recognised")
         else:
             D = dv[0]  # 0 = Continue (a new status), 1 = Break (no change)
+            tk = _call_blocks(fn, r"^Option::<PlainAccount>::take$")
+            dacc = [n_ for n_, what in fl.notes if what.startswith("discriminant(") and tk and f"({tk[0][1]})" in what]
             per = []
             for b in returns:
                 g = lambda c: out(c, b)
-                newacc = mirflow.combine([str(DEFINFO), f"(+ arg_2 {SLOTS_OF})"])
-                t_ = tr(out, b, names, dict(info=DEFINFO, status=NEW, previous_info=f"(+ acc_in {INFO_OF})", previous_status="st_in", storage="arg_2", storage_was_destroyed=0))
+                # a touch does not wipe storage: what the cached account held stays, the written slots are added (an absent account starts empty)
+                if len(dacc) == 1:
+                    prev_stor = f"(ite (= {dacc[0]} 1) (+ acc_in {STOR_OF}) {DEFMAP})"
+                    keeps = f"(and (= {g('@extends')} 1) (= {g('@extend.0')} {prev_stor}) (= {g('@extend.1')} (+ arg_2 {SLOTS_OF})))"
+                else:
+                    prev_stor, keeps = "(- 1)", "false"  # the previous account is not examined at all: its storage cannot have been kept
+                newacc = mirflow.combine([str(DEFINFO), prev_stor])
+                # "the info of the previous account, if any": through Option::map, or through a match on the taken account
+                prev_info = f"(ite (= {dacc[0]} 1) (+ acc_in {INFO_OF}) {NONE_T})" if len(dacc) == 1 else f"(+ acc_in {INFO_OF})"
+                t_ = tr(out, b, names, dict(info=DEFINFO, status=NEW, previous_info=prev_info, previous_status="st_in", storage="arg_2", storage_was_destroyed=0))
                 flag = f"(= {g('@stfn.1')} (+ acc_in {BOOL_OF}))"
-                changed = f"(and (= {g('@acc')} {newacc}) (= {g('@st')} {NEW}) {t_})"
+                changed = f"(and (= {g('@acc')} {newacc}) {keeps} (= {g('@st')} {NEW}) {t_})"
                 unchanged = f"(and (= {g('@acc')} acc_in) (= {g('@st')} st_in) (= {g('_0')} {NONE_T}) (= {g('@takes')} 0))"
                 ok = f"(and (= {g('@stcalls')} 1) (= {g('@stfn.0')} st_in) {flag} (ite (= {D} 0) {changed} {unchanged}))"
                 per.append(f"(and on_{b} (not {ok}))")
             cx.decide("CacheAccount::touch_create_pre_eip161", decls, asserts, order, [f"(or (= {D} 0) (= {D} 1))"], "(or " + " ".join(per) + ")",
                       [("changed", "(or " + " ".join(f"(and on_{b} (= {D} 0))" for b in returns) + ")"), ("unchanged", "(or " + " ".join(f"(and on_{b} (= {D} 1))" for b in returns) + ")")],
-                      [D], "a `no change` answer of the status machine does not leave account and status untouched, or a change does not install the empty account / new status / exact transition")
+                      [D], "a `no change` answer of the status machine does not leave account and status untouched, or a change does not install (default info, previous storage extended by the written slots) / new status / exact transition")
 
     # ---- change
     r = common("change", "on_changed")
@@ -559,3 +569,120 @@ def _finish(cx):
     else:
         res.update(status="pass")
     return res
+
+
+# ====================================================================================================================================
+# (E) CacheDB::commit: one iteration of the loop over committed accounts
+def run_cachedb_commit(tier, log, seed):
+    text = mir.dump("revm", log)
+    funcs = mir.parse_functions(text)
+    cx = _Ctx(log)
+    name = "CacheDB::commit"
+    src = open(os.path.join(REPO, "crates/revm/src/db/in_memory_db.rs")).read()
+    m = re.search(r"pub enum AccountState \{(.*?)\n\}", src, re.S)
+    states = re.findall(r"^\s*([A-Z]\w*),", m.group(1), re.M) if m else []
+    cands = _fn(funcs, r"^in_memory_db::<impl at [^>]*>::commit$")
+    if len(cands) != 1 or states != ["NotExisting", "Touched", "StorageCleared", "None"]:
+        cx.inconcl.append(f"{name}: {len(cands)} MIR bodies / AccountState variants {states}")
+        return _finish(cx)
+    fn = cands[0]
+    CLEARED, NEWINFO, NEWSTOR = 80, 300, 301
+    ST = lambda v: 400 + states.index(v)
+    problems = []
+
+    def place_of(arg, b):
+        ml = re.match(r"^(?:move|copy) (_\d+)$", arg.strip())
+        found = [md.group(1) for blk in (fn.blocks.values() if ml else []) for s_ in blk.stmts
+                 for md in [re.match(r"^%s = &(?:mut )?(\(.*\))$" % re.escape(ml.group(1)), s_)] if md]
+        return found[0] if len(found) == 1 else None
+
+    def clear(callee, args, env, b, flow):
+        pc = flow.place_cell(place_of(args, b) or "")
+        if pc == "@stor":
+            env["@stor"] = str(CLEARED)
+        else:
+            problems.append(f"HashMap::clear on something else than the account's storage in {b}")
+        return None
+
+    def extend(callee, args, env, b, flow):
+        al = mir.split_top(args)
+        pc = flow.place_cell(place_of(al[0], b) or "") if al else None
+        if pc != "@stor":
+            problems.append(f"extend on something else than the account's storage in {b}")
+        env["@extends"] = f"(+ {env['@extends']} 1)"
+        env["@extend.1"] = flow.rvalue(al[1], env, b) if len(al) > 1 and flow.rvalue(al[1], env, b) is not None else "0"
+        return None
+
+    def itmap(callee, args, env, b, flow):
+        mm = re.search(r"(?:move|copy) (_\d+)", args)
+        t = env.get(mm.group(1)) if mm else None
+        mc = re.search(r"\{closure@([^}]*)\}", callee + "(" + args)
+        cl = [f for n, fl_ in funcs.items() for f in fl_ if mc and "{closure#" in n and ("{closure@" + mc.group(1) + "}") in f.text.split("\n")[0]]
+        calls = [re.sub(r"::<.*?>", "", c[1]) for b_ in (cl[0].blocks.values() if len(cl) == 1 else []) for c in [mir.call_of(b_.term or "")] if c]
+        if t is None or calls != ["EvmStorageSlot::present_value"]:
+            problems.append(f"storage closure not recognised in {b} ({calls})")
+            return None
+        return f"(+ {t} {SLOTS_OF})"
+    rules = [(r" as Iterator>::next$", "free"), (r"^Account::is_touched$", "free"), (r"^Account::is_selfdestructed$", "free"), (r"^Account::is_created$", "free"),
+             (r"^HashMap::<Address, DbAccount>::entry$", "record:entry:2;count:entries;free"), (r"::or_default$", "arg:0"),
+             (r"^HashMap::<Uint<256, 4>, Uint<256, 4>>::clear$", clear), (r" as Extend<.*>>::extend::<", extend),
+             (r" as IntoIterator>::into_iter$", "arg:0"), (r"hash_map::IntoIter<Uint<256, 4>, EvmStorageSlot> as Iterator>::map::<", itmap),
+             (r"insert_contract$", "count:contracts"), (r"^<AccountInfo as Default>::default$", f"tag:{DEFINFO}")]
+    consts = [(r"^AccountState::(\w+)$", lambda m_, env: str(ST(m_.group(1))) if m_.group(1) in states else "0"),
+              (r"^(?:move|copy) \(_\d+\.0: (\w+::)*AccountInfo\)$", NEWINFO), (r"^(?:move|copy) \(_\d+\.1: .*HashMap<.*EvmStorageSlot>\)$", NEWSTOR),
+              (r"^copy \(\(\(_\d+ as Some\)\.0: \(.*Address, .*Account\)\)\.0: (\w+::)*Address\)$", 302)]
+    places = [(r"^\(\(\*_\d+\)\.0: (\w+::)*AccountInfo\)$", "info"), (r"^\(\(\*_\d+\)\.1: (\w+::)*AccountState\)$", "state"),
+              (r"^\(\(\*_\d+\)\.2: std::collections::HashMap<ruint::Uint<256, 4>, ruint::Uint<256, 4>>\)$", "stor")]
+    fl = mirflow.Flow(fn, rules, consts, place_cells=places, extra_cells=["@extends", "@extend.1"], init={"@info": "info_in", "@state": "state_in", "@stor": "stor_in"})
+    for v in ("info_in", "state_in", "stor_in"):
+        fl.free[v] = f"(declare-const {v} Int)"
+    # a helper over the previous state becomes its truth table (same mechanism as the CacheDB read policy)
+    from jobs_e3 import _bool_table_of_state_helper
+    for b in fn.blocks.values():
+        c = mir.call_of(b.term or "")
+        if c and re.search(r"^AccountState::\w+$", re.sub(r"::<.*?>", "", c[1])):
+            tbl = _bool_table_of_state_helper(funcs, c[1], len(states))
+            if tbl is not None:
+                fl.call_rules.append(("^" + re.escape(c[1]) + "$", "state-table:" + ",".join(map(str, tbl))))
+    nxt = _call_blocks(fn, r" as Iterator>::next$")
+    if len(nxt) != 1:
+        cx.unrecognised(name, f"{len(nxt)} iterator steps")
+        return _finish(cx)
+    try:
+        decls, asserts, cells, order, ends, out = fl.encode(start=nxt[0][0], cut_loops=True)
+    except mir.Unsupported as e:
+        cx.inconcl.append(f"{name}: {e}")
+        return _finish(cx)
+    t_, sd_, cr_ = _call_blocks(fn, r"^Account::is_touched$"), _call_blocks(fn, r"^Account::is_selfdestructed$"), _call_blocks(fn, r"^Account::is_created$")
+    dstate = [n_ for n_, what in fl.notes if what.startswith("discriminant(") and "AccountState" in what]
+    if problems or not (len(t_) == 1 and len(sd_) == 1 and len(cr_) == 1 and len(dstate) <= 1 and fl.loop_backs):
+        cx.unrecognised(name, "; ".join(problems) or f"shape not recognised (touched={len(t_)} selfdestructed={len(sd_)} created={len(cr_)} previous-state tests={dstate})")
+        return _finish(cx)
+    N, T, SD, CR = f"disc_{nxt[0][1]}", "r_" + t_[0][0], "r_" + sd_[0][0], "r_" + cr_[0][0]
+    extra = [f"(or (= {v} 0) (= {v} 1))" for v in (N, T, SD, CR)]
+    if dstate:
+        D = dstate[0]
+        extra += [f"(>= {D} 0)", f"(< {D} {len(states)})"]
+        keep = "(or " + " ".join(f"(= {D} {states.index(x)})" for x in ("StorageCleared", "NotExisting")) + ")"
+    else:
+        D, keep = None, "false"
+    per = []
+    for b in ends:
+        g = lambda c: out(c, b)
+        back = fn.blocks[b].term == "loopback"
+        same = f"(and (= {g('@info')} info_in) (= {g('@state')} state_in) (= {g('@stor')} stor_in) (= {g('@extends')} 0) (= {g('@entries')} 0))"
+        one_entry = f"(and (= {g('@entries')} 1) (= {g('@entry.1')} 302))"
+        destroyed = f"(and {one_entry} (= {g('@info')} {DEFINFO}) (= {g('@state')} {ST('NotExisting')}) (= {g('@stor')} {CLEARED}) (= {g('@extends')} 0))"
+        written = (f"(and {one_entry} (= {g('@info')} {NEWINFO}) (= {g('@contracts')} 1) (= {g('@extends')} 1) (= {g('@extend.1')} (+ {NEWSTOR} {SLOTS_OF})) "
+                   f"(ite (= {CR} 1) (and (= {g('@state')} {ST('StorageCleared')}) (= {g('@stor')} {CLEARED})) "
+                   f"(and (= {g('@state')} (ite {keep} {ST('StorageCleared')} {ST('Touched')})) (= {g('@stor')} stor_in))))")
+        step = f"(ite (= {T} 0) {same} (ite (= {SD} 1) {destroyed} {written}))"
+        ok = f"(ite (= {N} 0) (and {same} {'false' if back else 'true'}) (and {step} {'true' if back else 'false'}))"
+        per.append(f"(and on_{b} (not {ok}))")
+    wit = [("destroyed", "(or " + " ".join(f"(and on_{b} (= {out('@state', b)} {ST('NotExisting')}))" for b in ends) + ")"),
+           ("written", "(or " + " ".join(f"(and on_{b} (= {out('@extends', b)} 1))" for b in ends) + ")"),
+           ("exit", "(or " + " ".join(f"(and on_{b} (= {N} 0))" for b in ends) + ")")]
+    cx.decide(name, decls, asserts, order, extra, "(or " + " ".join(per) + ")", wit, [N, T, SD, CR] + ([D] if D else []),
+              "one committed account is not applied as the flags prescribe (untouched: nothing; selfdestructed: info reset, storage cleared, NotExisting; created: storage cleared and "
+              "StorageCleared; otherwise info replaced, written slots added, and `storage known empty` (StorageCleared / NotExisting) preserved as StorageCleared, else Touched)")
+    return _finish(cx)
